@@ -51,6 +51,15 @@ def anchors():
 
 def check_int(n, out):
     dewies_to_lbc, lbc_to_dewies = _imports()
+    if n % 5 == 0:
+        # history: the result for an integer must not depend on earlier calls, e.g. one with the numerically equal float
+        # (which some callers pass and which is formatted inexactly by design)
+        try:
+            dewies_to_lbc(float(n))
+            dewies_to_lbc(-float(n))
+        except Exception:
+            pass
+        out.label("after_float_call")
     try:
         s = dewies_to_lbc(n)
     except Exception as e:  # formatting an int must not fail
